@@ -102,7 +102,7 @@ protected:
                 const unsigned char* ptr_lowerGroupGetMultipolePtr = reinterpret_cast<const unsigned char*>(&lowerGroupGetMultipolePtr[0]);
                 const unsigned char* ptr_upperGroupGetMultipolePtr = reinterpret_cast<const unsigned char*>(&upperGroupGetMultipolePtr[0]);
 
-#pragma omp task depend(in:ptr_lowerGroupGetMultipolePtr[0]) depend(commute:ptr_upperGroupGetMultipolePtr[0]) default(shared) firstprivate(upperGroup, lowerGroup)  priority(priorities.getM2MPriority(idxLevel))
+#pragma omp task depend(in:ptr_lowerGroupGetMultipolePtr[0]) depend(commute:ptr_upperGroupGetMultipolePtr[0]) default(shared) firstprivate(idxLevel, upperGroup, lowerGroup)  priority(priorities.getM2MPriority(idxLevel))
                 {
                     kernelWrapper.M2M(idxLevel, kernels[omp_get_thread_num()], *lowerGroup, *upperGroup);
                 }
